@@ -22,13 +22,21 @@
   "the matchings are perfect matchings of the modelled graphs" (C13's statement; checked on every recorded matching by
   the harness through the driver op `smwpm decode … → pm=1`).
 
-  STATED, NOT PROVED:
-  * (the rotated TORIC decoder is in Props/C02/SmwpmToric.lean);
+  STATED, NOT PROVED (in this file) — AUDIT of each item:
+  * (the rotated TORIC decoder is in Props/C02/SmwpmToric.lean) — PROVED there: `smwpm_toric_clusters_total`,
+    `smwpm_toric_syndrome`, `smwpm_toric_syndrome_ideal`;
   * existence of a perfect matching of the modelled symmetry graph for every reachable syndrome array (inside the
     stated noise domain the real decoder finds one on every run of the harness; outside it — e.g. non-Y errors at
-    infinite bias — there is none and qecsim raises 'Cluster is not a closed loop');
+    infinite bias — there is none and qecsim raises 'Cluster is not a closed loop')
+      → NOW PROVED: Props/C02/SmwpmExists.lean `smwpm_planar_graph_has_pm` (+ `feasible_finite_bias`),
+        `smwpm_planar_cluster_graph_has_pm`, `smwpm_planar_never_fails`, `smwpm_planar_max_cardinality_succeeds`;
+        Props/C02/SmwpmExists2.lean `smwpm_planar_graph_has_pm_infinite_bias`, `smwpm_planar_line_even_of_yonly`,
+        `smwpm_planar_never_fails_infinite_bias`, `smwpm_planar_feasible_p_zero`, `smwpm_planar_never_fails_p_zero`;
+        "outside there is none": Props/C02/SmwpmEven.lean `smwpm_planar_line_even_necessary`,
+        `smwpm_planar_pm_iff_infinite_bias`, `smwpm_planar_pm_iff_p_zero`, `no_pm_single_x_bounded`;
   * `walk` / `clustersLoop` never exhaust their fuel on ARBITRARY dictionaries (proved here only under `Good`,
-    which is all the property needs).
+    which is all the property needs) — GENUINELY OPEN (no theorem; not needed: every perfect matching gives `Good`
+    dictionaries by `smwpm_planar_mates_good`, and the harness compares `_clusters` on every recorded matching).
 -/
 import QecVerif.Props.C02
 import QecVerif.Lemmas.SmwpmFinal
